@@ -296,7 +296,9 @@ func c15Scenarios() []c15Scenario {
 			st.Connect(harness.ConnectOpts{ClientID: "st", Clean: true, Version: refmqtt.V5, Props: exp()})
 			st.Subscribe(0, refmqtt.Sub{Filter: "t", QoS: 0})
 			// fill the stalled client's socket: it never reads again
-			for i := 0; i < 6; i++ {
+			// enough to fill the socket (64 bytes), the packet in the writer's hands and the
+			// 8-slot outbound channel, so that the producer itself is parked on the channel
+			for i := 0; i < 14; i++ {
 				p.Send(&refmqtt.Packet{Type: refmqtt.PUBLISH, Topic: "t", Payload: []byte(strings.Repeat("z", 30))})
 			}
 			vsched.Settle()
